@@ -20,6 +20,8 @@ def _blocks():
 
 
 def run(ctx):
+    from . import c08
+    c08.refresh_facts(ctx)      # leaf switches -> Generated/Facts08.lean (Props import Facts08Good)
     mods = _blocks()
     for m in mods:
         if hasattr(m, 't1'):
